@@ -7,6 +7,8 @@ over a queue of lines: the yields must be exactly the model-successful lines, in
 
 from __future__ import annotations
 
+import itertools
+
 from .. import histories, spec
 from ..harness import VERSIONS, ScriptEnd, fields_of, new_gateway
 from ..harness import run as arun
@@ -40,6 +42,32 @@ def cases(ctx):
                 count += 1
                 yield {"version": version, "steps": histories.rx_steps(lines)}
     ctx.exhaustive[f"histories-len<={max_len}-x-5-versions"] = count
+    # registries restored through the real loader from SPARSE files (optional fields omitted), then traffic for one
+    # node must not show up on another (no state shared between restored records)
+    count = 0
+    sparse = {
+        "minimal": lambda n: {"node_id": n, "node_type": 17, "protocol_version": "2.0"},
+        "empty-children": lambda n: {"node_id": n, "node_type": 17, "protocol_version": "2.0", "children": {}},
+        "child-no-values": lambda n: {"node_id": n, "node_type": 17, "protocol_version": "2.0",
+                                      "children": {"0": {"child_id": 0, "child_type": 6}}},
+        "full": lambda n: {"node_id": n, "node_type": 17, "protocol_version": "2.0", "sketch_name": "s", "sketch_version": "1",
+                           "battery_level": 5, "heartbeat": 2, "sleeping": False,
+                           "children": {"0": {"child_id": 0, "child_type": 6, "description": "d", "values": {"0": "1"}}}},
+    }
+    traffic = ["1;3;0;0;6;new child", "1;0;0;0;6;c0", "1;0;1;0;2;on", "2;0;1;0;2;off", "2;0;0;0;3;c0 of 2", "1;255;3;0;0;77",
+               "1;255;3;0;11;name1", "2;0;2;0;2;", "1;0;2;0;2;", "3;0;1;0;2;x"]
+    for version in VERSIONS:
+        for kinds in itertools.product(sparse, repeat=2):
+            for lines in itertools.permutations(traffic, 3):
+                if not ctx.mine():
+                    continue
+                if count % (25 if ctx.quick else 3):
+                    count += 1
+                    continue
+                count += 1
+                records = {"1": sparse[kinds[0]](1), "2": sparse[kinds[1]](2), "3": sparse[kinds[0]](3)}
+                yield {"version": version, "steps": [["load", records], *histories.rx_steps(list(lines))]}
+    ctx.exhaustive["sparse-restore-cases"] = count
     for i in range(ctx.pick(600, 24000) // ctx.shard_count):
         version = [None, *VERSIONS][i % 6]
         gen = histories.HistoryGen(rng, version)
